@@ -152,6 +152,14 @@ uint32_t vf_alloc_serial(void) { return LTserial; }
 static void heap_reset(void) { for (uint32_t i = 0; i < LTn; i++) free(LT[i].p); LTn = 0; LTserial = 0; }
 #endif
 
+#ifndef VF_SAN
+void vf_arena_range(uintptr_t *lo, uintptr_t *hi) { *lo = (uintptr_t)arena; *hi = (uintptr_t)arena + VF_ARENA_SIZE; }
+#endif
+void vf_core_sections(uintptr_t *blo, uintptr_t *bhi, uintptr_t *dlo, uintptr_t *dhi) {
+    *blo = (uintptr_t)__start_core_bss; *bhi = (uintptr_t)__stop_core_bss; *dlo = (uintptr_t)__start_core_data; *dhi = (uintptr_t)__stop_core_data;
+}
+void (*vf_on_free)(void *p, size_t size);       /* tsanabi: forget access history of a freed block */
+void (*vf_on_alloc)(void *p, size_t size);
 uint32_t vf_live_blocks(void) { return W.led.live_blocks; }
 uint64_t vf_live_bytes(void) { return W.led.live_bytes; }
 
@@ -169,6 +177,12 @@ static int fp_point(int kind) {
     return fail;
 }
 
+#ifdef VF_TSANABI
+void vf_tsan_range(const void *p, size_t n, int is_write, void *pc);   /* mc/tsan_hooks.c: scheduling point + race record */
+#define TS_RANGE(p, n, w) vf_tsan_range((p), (n), (w), __builtin_return_address(0))
+#else
+#define TS_RANGE(p, n, w) ((void)0)
+#endif
 /* ------------------------------------------------------------ port API */
 uint64_t lltd_port_monotonic_seconds(void) { return W.now_ms / 1000; }
 uint64_t lltd_port_monotonic_milliseconds(void) { return W.now_ms; }
@@ -176,6 +190,7 @@ uint64_t lltd_port_monotonic_milliseconds(void) { return W.now_ms; }
 void *lltd_port_malloc(size_t size) {
     if (fp_point(VF_F_MALLOC)) return NULL;
     void *p = arena_alloc(size);
+    if (vf_on_alloc) vf_on_alloc(p, size);
     W.led.allocs++; W.led.live_blocks++; W.led.live_bytes += size;
     if (W.led.live_blocks > W.led.hw_blocks) W.led.hw_blocks = W.led.live_blocks;
     if (W.led.live_bytes > W.led.hw_bytes) W.led.hw_bytes = W.led.live_bytes;
@@ -184,12 +199,13 @@ void *lltd_port_malloc(size_t size) {
 void lltd_port_free(void *ptr) {
     if (!ptr) return;
     int sz = arena_free(ptr);
+    if (sz >= 0 && vf_on_free) vf_on_free(ptr, (size_t)sz);
     if (sz < 0) { W.led.bad_free++; return; }
     W.led.frees++; W.led.live_blocks--; W.led.live_bytes -= (uint64_t)sz;
 }
-void *lltd_port_memset(void *ptr, int value, size_t num) { return memset(ptr, value, num); }
-void *lltd_port_memcpy(void *d, const void *s, size_t n) { return memcpy(d, s, n); }
-int   lltd_port_memcmp(const void *a, const void *b, size_t n) { return memcmp(a, b, n); }
+void *lltd_port_memset(void *ptr, int value, size_t num) { TS_RANGE(ptr, num, 1); return memset(ptr, value, num); }
+void *lltd_port_memcpy(void *d, const void *s, size_t n) { TS_RANGE(s, n, 0); TS_RANGE(d, n, 1); return memcpy(d, s, n); }
+int   lltd_port_memcmp(const void *a, const void *b, size_t n) { TS_RANGE(a, n, 0); TS_RANGE(b, n, 0); return memcmp(a, b, n); }
 
 static void trace_add(uint8_t kind, int iface, int result, const void *bytes, uint32_t len) {
     if (W.ntrace >= VF_TRACE_MAX) { W.trace_overflow++; return; }
@@ -203,7 +219,8 @@ static void trace_add(uint8_t kind, int iface, int result, const void *bytes, ui
     }
 }
 
-void lltd_port_sleep_ms(uint32_t ms) { trace_add(VF_T_SLEEP, 0, 0, NULL, ms); W.now_ms += ms; }
+int vf_cur_iface;      /* interface whose frame is being handled (attributes sleeps in two-interface harnesses) */
+void lltd_port_sleep_ms(uint32_t ms) { trace_add(VF_T_SLEEP, vf_cur_iface, 0, NULL, ms); W.now_ms += ms; }
 
 int lltd_port_send_frame(void *iface_ctx, const void *frame, size_t frame_len) {
     int idx = vf_ctx_index(iface_ctx);
@@ -225,7 +242,7 @@ int lltd_port_get_mtu(void *ctx, size_t *out) {
     vf_iface *f = IF(ctx);
     if (!f || !out) return -1;
     if (fp_point(VF_F_MTU) || (f->fail & VF_G_MTU)) return -1;
-    *out = f->mtu; return 0;
+    TS_RANGE(out, sizeof *out, 1); *out = f->mtu; return 0;
 }
 int lltd_port_get_icon_image(void **out_data, size_t *out_size) {
     if (out_data) *out_data = NULL;
@@ -252,7 +269,7 @@ size_t lltd_port_get_hostname(void *dst, size_t dst_len) {
     if (!dst || dst_len == 0) return 0;
     if (fp_point(VF_F_HOSTNAME) || (W.host.fail & VF_G_HOSTNAME)) return 0;
     size_t n = W.host.hostname_len < dst_len ? W.host.hostname_len : dst_len;
-    memcpy(dst, W.host.hostname, n);
+    TS_RANGE(dst, n, 1); memcpy(dst, W.host.hostname, n);
     return W.host.hostname_ret_full ? W.host.hostname_len : n;
 }
 size_t lltd_port_get_support_url(void *dst, size_t dst_len) { (void)dst; (void)dst_len; return 0; }
@@ -261,14 +278,14 @@ size_t lltd_port_get_hw_id(void *dst, size_t dst_len) {
     if (!dst || dst_len == 0) return 0;
     if (fp_point(VF_F_HWID) || (W.host.fail & VF_G_HWID)) return 0;
     size_t n = W.host.hwid_len < dst_len ? W.host.hwid_len : dst_len;
-    memcpy(dst, W.host.hwid, n);
+    TS_RANGE(dst, n, 1); memcpy(dst, W.host.hwid, n);
     return n;
 }
 int lltd_port_get_mac_address(void *ctx, ethernet_address_t *out) {
     vf_iface *f = IF(ctx);
     if (!f || !out) return -1;
     if (fp_point(VF_F_MAC) || (f->fail & VF_G_MAC)) return -1;
-    memcpy(out->a, f->mac, 6); return 0;
+    TS_RANGE(out, 6, 1); memcpy(out->a, f->mac, 6); return 0;
 }
 uint32_t lltd_port_get_characteristics_flags(void *ctx) {
     vf_iface *f = IF(ctx);
@@ -279,22 +296,22 @@ uint32_t lltd_port_get_characteristics_flags(void *ctx) {
 int lltd_port_get_if_type(void *ctx, uint32_t *out) {
     vf_iface *f = IF(ctx); if (!f || !out) return -1;
     if (GETTER(VF_G_IFTYPE)) return -1;
-    *out = f->iftype; return 0;
+    TS_RANGE(out, 4, 1); *out = f->iftype; return 0;
 }
 int lltd_port_get_ipv4_address(void *ctx, uint32_t *out) {
     vf_iface *f = IF(ctx); if (!f || !out) return -1;
     if (GETTER(VF_G_IPV4)) return -1;
-    *out = f->ipv4_be; return 0;
+    TS_RANGE(out, 4, 1); *out = f->ipv4_be; return 0;
 }
 int lltd_port_get_ipv6_address(void *ctx, uint8_t out[16]) {
     vf_iface *f = IF(ctx); if (!f || !out) return -1;
     if (GETTER(VF_G_IPV6)) return -1;
-    memcpy(out, f->ipv6, 16); return 0;
+    TS_RANGE(out, 16, 1); memcpy(out, f->ipv6, 16); return 0;
 }
 int lltd_port_get_link_speed_100bps(void *ctx, uint32_t *out) {
     vf_iface *f = IF(ctx); if (!f || !out) return -1;
     if (GETTER(VF_G_SPEED)) return -1;
-    *out = f->speed; return 0;
+    TS_RANGE(out, 4, 1); *out = f->speed; return 0;
 }
 int lltd_port_get_wifi_mode(void *ctx, uint8_t *out) {
     vf_iface *f = IF(ctx); if (!f || !out) return -1;
@@ -304,13 +321,13 @@ int lltd_port_get_wifi_mode(void *ctx, uint8_t *out) {
 int lltd_port_get_bssid(void *ctx, uint8_t out[6]) {
     vf_iface *f = IF(ctx); if (!f || !out) return -1;
     if (!f->wifi || GETTER(VF_G_BSSID)) return -1;
-    memcpy(out, f->bssid, 6); return 0;
+    TS_RANGE(out, 6, 1); memcpy(out, f->bssid, 6); return 0;
 }
 size_t lltd_port_get_ssid(void *ctx, void *dst, size_t dst_len) {
     vf_iface *f = IF(ctx); if (!f || !dst) return 0;
     if (!f->wifi || GETTER(VF_G_SSID)) return 0;
     size_t n = f->ssid_len < dst_len ? f->ssid_len : dst_len;
-    memcpy(dst, f->ssid, n);
+    TS_RANGE(dst, n, 1); memcpy(dst, f->ssid, n);
     return f->ssid_ret_full ? f->ssid_len : n;
 }
 int lltd_port_get_wifi_max_rate_0_5mbps(void *ctx, uint16_t *out) {
